@@ -9,7 +9,11 @@ from vlib import drive
 from vlib.drive import Q, quiet
 
 PROPERTY = "C15"
-RULE = ("weights: 1-3 dimensions, each with its own distribution (Uniform(a,b), Triangle(a,mid,b), Normal(mu,sigma) on "
+RULE = ("set-up (all subs): 1-5 dimensions (4-5 in ~40%, with few points per dimension); the per-dimension "
+        "(distribution, interval) list is a PATTERN over 1-3 distinct entries with repeats in arbitrary positions "
+        "([A,A,B,B], [A,B,B,A,C], ...; entries may share the distribution info on different intervals), passed as a list "
+        "or, where all infos agree, in the string/tuple short form; every dimension is judged against the distribution "
+        "SPECIFIED for it. weights: each dimension with its distribution (Uniform(a,b), Triangle(a,mid,b), Normal(mu,sigma) on "
         "(-inf,inf) or truncated to mu+-k*sigma; the families usable offline) set up through UncertaintyQuantification as "
         "callers do (list of infos, or the string short form), one GlobalTrapezoidalGridWeighted (boundary on/off; off "
         "whenever a Normal is present), per dimension either a refinement tree built with the library's own get_mid_point "
@@ -18,10 +22,10 @@ RULE = ("weights: 1-3 dimensions, each with its own distribution (Uniform(a,b), 
         "first for a coarser grid of the same trees (so that cached per-interval moments are in play), then for the full "
         "grid. Non-trivial = some dimension has a non-Uniform distribution and a non-equidistant grid with >= 6 points. "
         "midpoint: one interval (the support, a tree path of L/R choices of depth <= 20, or two arbitrary quantiles) of a "
-        "1-2 dimensional set-up, midpoint taken in a drawn dimension; non-trivial = non-Uniform family, primary (ppf) "
+        "1-5 dimensional set-up, midpoint taken in a drawn dimension; non-trivial = non-Uniform family, primary (ppf) "
         "branch taken, P(interval) >= 1e-6. moments: a vector model (1-2 nowhere-exact base components, 1-3 affine images "
-        "c*f+e, the constants 1 and K) is integrated by SpatiallyAdaptiveSingleDimensions2 on the weighted grid (d 1-3, "
-        "lmin 1-2, versions 6/2/3/7/8, rebalancing, volume weighting on/off) driven by a scripted decision tape for up to "
+        "c*f+e, the constants 1 and K) is integrated by SpatiallyAdaptiveSingleDimensions2 on the weighted grid (d 1-5; "
+        "d>=4 with lmin=1, lmax=2 and <=3 steps; lmin 1-2, versions 6/2/3/7/8, rebalancing, volume weighting on/off) driven by a scripted decision tape for up to "
         "8 steps; the moment identities AND the weight clauses for the 1D grids of the component grid evaluated last are "
         "evaluated after EVERY evaluate_operation, and the identities once more for the nodes-and-weights path "
         "(use_combiinstance_solution=False) at the end. Non-trivial = >=1 step refined a strict subset of the intervals "
@@ -51,8 +55,8 @@ ASSUMPTIONS = [
     "identities and agree with the combined-moment path to 1e-9 relative",
     "offset/width ratios |a|/(b-a) <= 20 in the regular classes; a separate low-frequency 'far-offset' Triangle class "
     "(ratio 200..2000) exists because the first-moment quadrature loses accuracy there (F-C15b)",
-    "same distribution info in two dimensions with different intervals is generated at low frequency only (F-C15a); a "
-    "dimension hit by it is dropped from the remaining clauses of that case",
+    "class counters: dims=4+, distinct=k, pattern-with-repeat, pattern-with-late-repeat (a repeated entry whose first "
+    "occurrence is not at the index equal to the number of distinct entries before it, e.g. [A,A,B,B])",
 ]
 
 A_CHOICES = [0.0, -1.0, 2.0, 0.3, -3.5, 10.0]
@@ -189,6 +193,36 @@ def trapezoid(pts):
 # ------------------------------------------------------------------------------------------------------------
 # library set-up (as the callers do it) and the clause functions
 # ------------------------------------------------------------------------------------------------------------
+def case_specs(case):
+    """per-dimension (distribution, interval) list: a pattern over the distinct entries of the case"""
+    if "entries" in case:
+        return [dict(case["entries"][i]) for i in case["pattern"]]
+    return [dict(s_) for s_ in case["dims"]]
+
+
+def spec_key(spec):
+    return tuple(sorted(spec.items()))
+
+
+def pattern_classes(out, specs):
+    """dims=4+ ; pattern-with-repeat ; pattern-with-late-repeat = some (distribution, interval) occurs more than once and
+    the dimension whose index equals the number of distinct entries before its first occurrence holds another entry."""
+    keys = [spec_key(s_) for s_ in specs]
+    if len(keys) >= 4:
+        out.cls("dims=4+")
+    distinct = []
+    for k in keys:
+        if k not in distinct:
+            distinct.append(k)
+    out.cls("distinct=%d" % len(distinct))
+    if len(distinct) < len(keys):
+        out.cls("pattern-with-repeat")
+    for r, k in enumerate(distinct):
+        if keys.count(k) > 1 and keys[r] != k:
+            out.cls("pattern-with-late-repeat")
+            break
+
+
 def lib_setup(specs, boundary, f=None, string_form=False):
     from sparseSpACE.GridOperation import UncertaintyQuantification
     from sparseSpACE.Grid import GlobalTrapezoidalGridWeighted
@@ -197,35 +231,15 @@ def lib_setup(specs, boundary, f=None, string_form=False):
     a = np.array([r.a for r in refs], dtype=float)
     b = np.array([r.b for r in refs], dtype=float)
     infos = [r.info for r in refs]
-    if string_form and all(i == ("Uniform",) for i in infos):
-        infos = "Uniform"                                 # the short form accepted by the constructor
+    if string_form and all(i == infos[0] for i in infos):
+        # short forms accepted by the constructor: one string / one tuple for every dimension
+        infos = "Uniform" if infos[0] == ("Uniform",) else infos[0]
     if f is None:
         f = FunctionCustom(lambda x: 1.0)
     with quiet():
         op = UncertaintyQuantification(f, infos, a, b, print_level=Q, log_level=Q)
         grid = GlobalTrapezoidalGridWeighted(a, b, op, boundary=boundary)
     return op, grid, refs, a, b
-
-
-def shared_wrong(op, refs, d):
-    """Observed cause F-C15a: the distribution object of dimension d IS the object of an earlier dimension whose
-    interval differs, and its cdf is not the cdf of dimension d (cdf(a_d) != 0 or cdf(b_d) != 1 or wrong in between)."""
-    dists = op.get_distributions()
-    r = refs[d]
-    if r.fam == "Normal":
-        return None
-    for e in range(d):
-        if dists[e] is dists[d] and (refs[e].a, refs[e].b) != (r.a, r.b):
-            xs = [r.a, r.ppf(0.3), r.ppf(0.8), r.b]
-            got = [float(dists[d].cdf(x)) for x in xs]
-            want = [0.0, 0.3, 0.8, 1.0]
-            if max(abs(g - w) for g, w in zip(got, want)) > 1e-9:
-                return "dimension %d (%s) uses the distribution object of dimension %d (%s): cdf at a,q30,q80,b = %s" % (
-                    d, r.describe(), e, refs[e].describe(), got)
-    return None
-
-
-SIG_SHARED = "/setup/distribution-of-earlier-dimension-reused-on-different-interval"
 
 
 def judge_mid(out, sub, ref, x1, x2, m, fallback):
@@ -398,22 +412,12 @@ def nonequidistant(pts):
 def run_weights(case):
     out = Outcome()
     sub = "weights"
-    specs = case["dims"]
+    specs = case_specs(case)
+    pattern_classes(out, specs)
     boundary = case["boundary"]
     string_form = case.get("string_form", False)
     op, grid, refs, a, b = lib_setup(specs, boundary, string_form=string_form)
     gspecs = list(case["grids"])
-    wrong = [d for d in range(len(specs)) if shared_wrong(op, refs, d)]
-    if wrong:
-        # F-C15a: everything observed in such a dimension is a consequence of the wrong distribution object; report the
-        # cause once, drop those dimensions and check the remaining ones in a fresh set-up
-        out.bad(sub + SIG_SHARED, shared_wrong(op, refs, wrong[0]))
-        out.cls("shared-distribution-other-interval")
-        specs = [s_ for d, s_ in enumerate(specs) if d not in wrong]
-        gspecs = [g_ for d, g_ in enumerate(gspecs) if d not in wrong]
-        op, grid, refs, a, b = lib_setup(specs, boundary, string_form=string_form)
-        if any(shared_wrong(op, refs, d) for d in range(len(specs))):
-            raise RuntimeError("reduced set-up still shares a distribution object")
     dim = len(specs)
     grids, levels = [], []
     for d in range(dim):
@@ -478,15 +482,11 @@ def run_weights(case):
 def run_midpoint(case):
     out = Outcome()
     sub = "midpoint"
-    specs = case["dims"]
-    op, grid, refs, a, b = lib_setup(specs, case["boundary"])
+    specs = case_specs(case)
+    pattern_classes(out, specs)
+    op, grid, refs, a, b = lib_setup(specs, case["boundary"], string_form=case.get("string_form", False))
     d = case.get("d", len(specs) - 1) % len(specs)
     ref = refs[d]
-    why = shared_wrong(op, refs, d)
-    if why:
-        out.bad(sub + SIG_SHARED, why)
-        out.cls("shared-distribution-other-interval")
-        return out
     x1, x2 = ref.a, ref.b
     iv = case["interval"]
     if iv["kind"] == "quantiles":
@@ -572,7 +572,8 @@ def run_moments(case):
     from sparseSpACE.spatiallyAdaptiveSingleDimension2 import SpatiallyAdaptiveSingleDimensions2
     out = Outcome()
     sub = "moments"
-    specs = case["dims"]
+    specs = case_specs(case)
+    pattern_classes(out, specs)
     dim = len(specs)
     nb = case["nb"]
     base = [drive.driver_function(dim, case["fseed"] + 17 * j) for j in range(nb)]
@@ -588,14 +589,6 @@ def run_moments(case):
     layout = dict(nb=nb, affine=affine, one=len(comps) - 2, const=(len(comps) - 1, K))
     f = drive.vector_function(comps)
     op, grid, refs, a, b = lib_setup(specs, case["boundary"], f=f, string_form=case.get("string_form", False))
-    for d in range(dim):
-        why = shared_wrong(op, refs, d)
-        if why:
-            # F-C15a: the weights of that dimension belong to another interval (they can even be all zero, E[1] = 0);
-            # every moment clause would only restate this cause
-            out.bad(sub + SIG_SHARED, why)
-            out.cls("shared-distribution-other-interval")
-            return out
     op.set_grid(grid)
     op.set_expectation_variance_Function()
     with quiet():
@@ -685,19 +678,22 @@ def _fl(lo, hi):
 
 
 def draw_spec(draw, boundary, prev, far=False):
-    """one dimension; prev = specs of the earlier dimensions"""
+    """one distinct (distribution, interval) entry; prev = the entries drawn before"""
     fams = ["Uniform", "Triangle", "Triangle"] if boundary else ["Uniform", "Triangle", "Triangle", "Normal", "Normal", "NormalT"]
     finite_prev = [p for p in prev if p["fam"] != "Normal"]
-    mode = draw(st.sampled_from(["fresh"] * 7 + ["copy", "copy", "shift"])) if prev else "fresh"
-    if mode == "copy":
-        return dict(prev[-1])
-    if mode == "shift" and finite_prev:
+    if finite_prev and not far and draw(st.integers(0, 2)) == 0:
+        # same distribution info on another interval (the info alone does not identify a Uniform / Triangle)
         p = finite_prev[-1]
         if p["fam"] == "Uniform":
             a = draw(st.sampled_from([x for x in A_CHOICES if x != p["a"]]))
             return dict(fam="Uniform", a=a, b=a + draw(st.sampled_from(W_CHOICES)))
         al, be = draw(_fl(0.05, 2.0)), draw(_fl(0.05, 2.0))
         return dict(fam="Triangle", a=p["mid"] - al, b=p["mid"] + be, mid=p["mid"])
+    normal_prev = [p for p in prev if p["fam"] == "Normal"]
+    if normal_prev and draw(st.integers(0, 3)) == 0:
+        # same Normal on another (truncated / infinite) domain
+        p = normal_prev[-1]
+        return dict(p, trunc=draw(st.sampled_from([t for t in (0, 1.5, 2.326, 3.5, 7.0) if t != p["trunc"]])))
     fam = "Triangle" if far else draw(st.sampled_from(fams))
     if fam in ("Normal", "NormalT"):
         mu = draw(st.one_of(st.sampled_from([0.0, 0.2, -1.5, 50.0]), _fl(-3.0, 3.0)))
@@ -709,9 +705,6 @@ def draw_spec(draw, boundary, prev, far=False):
     if far:
         a = draw(st.sampled_from([200.0, 1000.0, -300.0, 2000.0])) * w
     if fam == "Uniform":
-        first = [p for p in prev if p["fam"] == "Uniform"]
-        if first:                      # same info -> same interval unless "shift" was drawn (keeps F-C15a from starving the class)
-            return dict(first[0])
         return dict(fam="Uniform", a=a, b=a + w)
     frac = draw(st.one_of(_fl(0.02, 0.98), st.sampled_from([0.5, 0.75, 0.02, 0.98])))
     mid = a + w * frac
@@ -720,37 +713,54 @@ def draw_spec(draw, boundary, prev, far=False):
     return dict(fam="Triangle", a=a, b=a + w, mid=mid)
 
 
+DIM_CHOICES = [1, 2, 2, 3, 3, 3, 4, 4, 4, 5]
+
+
 def draw_dims(draw, maxdim, far=False):
-    dim = draw(st.integers(1, maxdim))
+    """(entries, pattern, boundary): 1..maxdim dimensions whose (distribution, interval) list is a pattern over 1-3
+    distinct entries with repeats in arbitrary positions ([A,A,B,B], [A,B,B,A,C], ...)"""
+    dim = draw(st.sampled_from([x for x in DIM_CHOICES if x <= maxdim]))
     boundary = draw(st.booleans())
-    specs = []
-    for _ in range(dim):
-        specs.append(draw_spec(draw, boundary, specs, far=far))
-    return specs, boundary
+    k = draw(st.integers(1, min(3, dim))) if dim <= 3 else draw(st.sampled_from([1, 2, 2, 2, 3, 3]))
+    entries = []
+    for _ in range(k):
+        e = draw_spec(draw, boundary, entries, far=far)
+        if all(spec_key(e) != spec_key(x) for x in entries):
+            entries.append(e)
+    k = len(entries)
+    # every entry occurs at least once, the remaining positions are free, then an arbitrary order
+    pattern = list(range(k)) + [draw(st.integers(0, k - 1)) for _ in range(dim - k)]
+    pattern = list(draw(st.permutations(pattern)))
+    if dim >= 4 and k >= 2 and draw(st.integers(0, 1)) == 0:
+        pattern = sorted(pattern)                   # blocks: [A,A,B,B], [A,A,A,B,C], ...
+    return entries, pattern, boundary
 
 
-def draw_grid(draw, boundary, maxsplits):
+def draw_grid(draw, boundary, maxsplits, maxq=14):
     if draw(st.integers(0, 2)) < 2:
         return dict(kind="tree", bias=draw(st.sampled_from(["random", "random", "random", "first", "last", "target"])),
                     splits=draw(st.lists(st.integers(0, 63), min_size=1, max_size=maxsplits)))
     return dict(kind="sorted", by=draw(st.sampled_from(["position", "quantile"])), cluster=draw(st.sampled_from([False, False, True])),
-                qs=draw(st.lists(_fl(0.001, 0.999), min_size=(0 if boundary else 1), max_size=14)))
+                qs=draw(st.lists(_fl(0.001, 0.999), min_size=(0 if boundary else 1), max_size=maxq)))
 
 
 def weights_strategy(tier):
     @st.composite
     def s(draw):
         far = draw(st.integers(0, 19)) == 0
-        specs, boundary = draw_dims(draw, 3, far=far)
-        grids = [draw_grid(draw, boundary, 18) for _ in specs]
-        return dict(dims=specs, boundary=boundary, grids=grids, far=far, string_form=draw(st.booleans()))
+        entries, pattern, boundary = draw_dims(draw, 5, far=far)
+        dim = len(pattern)
+        # 4-5 dimensions stay cheap: few points per dimension (the cost is one quad per interval)
+        ms, mq = {1: (18, 14), 2: (18, 14), 3: (12, 10), 4: (4, 4), 5: (3, 3)}[dim]
+        grids = [draw_grid(draw, boundary, ms, mq) for _ in range(dim)]
+        return dict(entries=entries, pattern=pattern, boundary=boundary, grids=grids, far=far, string_form=draw(st.booleans()))
     return s()
 
 
 def midpoint_strategy(tier):
     @st.composite
     def s(draw):
-        specs, boundary = draw_dims(draw, 2)
+        entries, pattern, boundary = draw_dims(draw, 5)
         if draw(st.booleans()):
             iv = dict(kind="path", path=draw(st.lists(st.sampled_from(["L", "R"]), min_size=0, max_size=20)))
             if draw(st.integers(0, 3)) == 0:        # one-sided chains into a tail
@@ -760,24 +770,31 @@ def midpoint_strategy(tier):
             if abs(q[0] - q[1]) < 1e-6:
                 q = [0.25, 0.75]
             iv = dict(kind="quantiles", q=q)
-        return dict(dims=specs, boundary=boundary, interval=iv, d=draw(st.integers(0, len(specs) - 1)))
+        return dict(entries=entries, pattern=pattern, boundary=boundary, interval=iv, string_form=draw(st.booleans()),
+                    d=draw(st.integers(0, len(pattern) - 1)))
     return s()
 
 
 def moments_strategy(tier):
     @st.composite
     def s(draw):
-        specs, boundary = draw_dims(draw, 3)
-        dim = len(specs)
+        entries, pattern, boundary = draw_dims(draw, 5)
+        dim = len(pattern)
         tape, mode = drive.st_tape(draw, maxlen=24)
-        lmin = draw(st.integers(1, 2))
-        hi = {1: 60, 2: 220, 3: 260}[dim] * (2 if tier == "thorough" else 1)
-        return dict(dims=specs, boundary=boundary, string_form=draw(st.booleans()),
-                    lmin=lmin, lmax=min(lmin + draw(st.integers(1, 2)), 3 if dim == 3 else 4),
+        if dim <= 3:
+            lmin = draw(st.integers(1, 2))
+            lmax = min(lmin + draw(st.integers(1, 2)), 3 if dim == 3 else 4)
+            steps = [1, 2, 3, 4, 6, 8]
+        else:                                   # 4-5 dimensions: the smallest scheme and few steps keep the case cheap
+            lmin, lmax = 1, 2
+            steps = [1, 1, 2, 3]
+        hi = {1: 60, 2: 220, 3: 260, 4: 200, 5: 200}[dim] * (2 if tier == "thorough" else 1)
+        return dict(entries=entries, pattern=pattern, boundary=boundary, string_form=draw(st.booleans()),
+                    lmin=lmin, lmax=lmax,
                     version=draw(st.sampled_from([6, 6, 6, 2, 3, 7, 8])), rebalancing=draw(st.booleans()),
                     vw=draw(st.booleans()), margin=draw(st.sampled_from([0.9, 0.5, 1.0, 0.0])),
                     safety=draw(st.sampled_from([0.1, 0.0, 0.5])),
-                    maxev=draw(st.integers(hi // 3, hi)), maxsteps=draw(st.sampled_from([1, 2, 3, 4, 6, 8])),
+                    maxev=draw(st.integers(hi // 3, hi)), maxsteps=draw(st.sampled_from(steps)),
                     tape=tape, mode=mode, fseed=draw(st.integers(0, 10 ** 6)), nb=draw(st.integers(1, 2)),
                     affine=draw(st.lists(st.tuples(st.sampled_from([2.5, -1.0, 0.5, -3.0, 10.0, 0.0, 1e-3, 1.0]),
                                                    st.sampled_from([-1.25, 0.0, 3.0, 100.0, -0.5])).map(list),
